@@ -1,7 +1,7 @@
 """Shared run loop of the whole-proxy property checks: play scenarios against the real proxy and
 the model, compare what arrived where event by event, and apply the property's executable judge
 (coq/SpecProxy.v, extracted) to the IMPLEMENTATION's observation."""
-import os, subprocess
+import os, subprocess, time
 import lib, proxygen as pg
 from lib import Case
 
@@ -56,6 +56,24 @@ def explore(ctx, pid, cases, judges, nontrivial=None, known_key=None, max_failur
     """differential + judges.  Returns (coverage, failures)."""
     work, drv = ctx["work"], ctx["drv"]
     impl_raw = lib.run_impl_sharded(drv, cases, work, shards=shards)
+    # a scenario whose sockets could not be bound (its address block is still held by a process of another check running
+    # at the same time: the block counter wraps after 10^4 allocations) is played again in a fresh block, twice at most;
+    # a proxy that cannot start for another reason fails again and is reported
+    for attempt in range(2):
+        bad = [i for i, c in enumerate(cases) if impl_raw.get(c.id, [b""])[:1] in ([b"setup-fail"], [b"start-fail"])]
+        if not bad:
+            break
+        time.sleep(1 + 3 * attempt)      # a foreign process holding the wildcard address of a port goes away, too
+        fresh = pg.alloc_blocks(len(bad))
+        for i, nb in zip(bad, fresh):
+            c = cases[i]
+            old = c.meta["block"].encode()
+            m = dict(c.meta)
+            m["block"] = nb.decode()
+            cases[i] = lib.Case(c.comp, c.id, [t.replace(old, nb) for t in c.toks], m)
+        rd = os.path.join(work, "retry%d" % attempt)
+        os.makedirs(rd, exist_ok=True)
+        impl_raw.update(lib.run_impl(drv, [cases[i] for i in bad], rd))
     model = lib.run_model(cases, work)
     impl, notes = {}, {}
     for c in cases:
